@@ -294,7 +294,10 @@ PROPS["C12"] = dict(
               "of session k and nothing else). Oracle: every CONNECT is accepted; with all gossip delivered every node resolves the id to the newest "
               "session (asked repeatedly, the lookup walks a Go map); each displaced session gets no PINGRESP at its next PINGREQ and is closed; "
               "afterwards the newest session's record and subscriptions are still listed everywhere, it receives a probe publish exactly once and "
-              "the displaced connections receive nothing."),
+              "the displaced connections receive nothing. Second run (pipelined): 10-40 takeovers per case in which the displacing client writes "
+              "CONNECT and PINGREQ (or SUBSCRIBE) back to back without waiting for CONNACK, on a node that knows 0 / 2000 / 20000 unrelated session "
+              "records (same or other node): CONNACK and every PINGRESP/SUBACK must arrive, the identifier must resolve to the new session only, "
+              "the displaced session is refused at its next PINGREQ."),
         note=_L3_NOTE + " Failures that depend on Go map iteration order are re-run (up to 4 times) before they are reported; --replay runs the saved case 6 times.",
         technique="stateful property-based testing with a harness-owned gossip schedule (rapid generation + shrinking)",
     ),
@@ -304,6 +307,7 @@ PROPS["C12"] = dict(
     runs=[
         dict(name="regress", pkg="c12", run="TestRegress", timeout=300),
         dict(name="random", pkg="c12", run="TestRandom", checks=dict(quick=1600, thorough=16000), shards=16, timeout=dict(quick=400, thorough=2400), shrinktime="90s"),
+        dict(name="pipelined", pkg="c12", run="TestPipelinedTakeover", checks=dict(quick=160, thorough=1600), shards=16, timeout=dict(quick=400, thorough=2400), shrinktime="60s"),
     ],
 )
 
